@@ -13,6 +13,7 @@ from ..tables import guard_context, enum_switches, switch_edges
 from .compiler_common import PX, cg
 
 LEVEL = 'other'
+TECHNIQUE = 'static analysis: hash-iteration audit with order-insensitive-consumer inference and a reviewed table keyed by function family, who-may-write the file system (family), case evaluation of persist_if_changed (Ok(false)/Ok(true)/Err), SQL/cache-key table agreement, hashing covers what was read'
 CLAUSE = ('every iteration over a randomly-seeded hash container reachable from App::build/codegen/diagnostic_representation/persist is '
           'consumed order-insensitively or is in the reviewed table; all file mutation is confined to persist_if_changed (open-for-write '
           'only on the has-changed branch); every write of the generator goes through AppWriter, whose check arm reaches no writer and uses '
